@@ -13,6 +13,22 @@ def natoms(mol):
 
 
 @spec
+def wf_basic(mol):
+    # the quantifier-free part of wf: component containers, their distinctness and equal lengths
+    return (typed(mol, 'MolecularGraph')
+            and typed(mol._atoms, 'list') and typed(mol._adj_list, 'list') and typed(mol._bond_counts, 'list')
+            and typed(mol._ring_bond_flags, 'list') and typed(mol._roots, 'list') and typed(mol._bond_dict, 'dict')
+            and typed(mol._delocal_subgraph, 'dict')
+            and mol._atoms != mol._adj_list and mol._atoms != mol._bond_counts and mol._atoms != mol._ring_bond_flags
+            and mol._atoms != mol._roots and mol._adj_list != mol._bond_counts and mol._adj_list != mol._ring_bond_flags
+            and mol._adj_list != mol._roots and mol._bond_counts != mol._ring_bond_flags
+            and mol._bond_counts != mol._roots and mol._ring_bond_flags != mol._roots
+            and mol._bond_dict != mol._delocal_subgraph
+            and len(mol._adj_list) == len(mol._atoms) and len(mol._bond_counts) == len(mol._atoms)
+            and len(mol._ring_bond_flags) == len(mol._atoms))
+
+
+@spec
 def wf(mol):
     # representation invariant of MolecularGraph (DESIGN 3, WF): parallel lists of equal length, atoms numbered by
     # position, one private adjacency list per atom, no aliasing between the component containers
@@ -54,22 +70,38 @@ def get_atom(self: 'MolecularGraph', idx: int):
 @contract("selfies/mol_graph.py::MolecularGraph.get_bond_count", props=["C01", "C06", "C08"])
 def get_bond_count(self: 'MolecularGraph', idx: int):
     requires(typed(self._bond_counts, 'list') and 0 <= idx and idx < len(self._bond_counts))
+    requires(typed(self._bond_counts[idx], 'num'))
     pure()
-    ensures(result == self._bond_counts[idx], tag="C01,C06:get-bond-count")
+    ensures(result == self._bond_counts[idx] and typed(result, 'num')
+            and (typed(result, 'int') == typed(self._bond_counts[idx], 'int')), tag="C01,C06:get-bond-count")
 
 
 @contract("selfies/mol_graph.py::MolecularGraph.has_bond", props=["C01", "C08", "C09"])
 def has_bond(self: 'MolecularGraph', a: int, b: int):
     requires(typed(self._bond_dict, 'dict'))
     pure()
-    ensures(result == ((min(a, b), max(a, b)) in self._bond_dict), tag="C01:has-bond")
+    ensures(typed(result, 'bool') and result == ((min(a, b), max(a, b)) in self._bond_dict), tag="C01:has-bond")
+    # consequences of bonds_ok for this pair, restated quantifier-free for callers that keep bonds_ok opaque
+    ensures(implies(bonds_ok(self) and typed(a, 'int') and typed(b, 'int') and not result,
+                    not ((a, b) in self._bond_dict) and not ((b, a) in self._bond_dict)), tag="C01:has-bond-no-reverse")
+    ensures(implies(bonds_ok(self) and result, typed(self._bond_dict[(min(a, b), max(a, b))], 'DirectedBond')),
+            tag="C01:has-bond-typed")
 
 
 @contract("selfies/mol_graph.py::MolecularGraph.get_dirbond", props=["C01", "C08"])
 def get_dirbond(self: 'MolecularGraph', src, dst):
     requires(typed(self._bond_dict, 'dict') and ((src, dst) in self._bond_dict))
+    requires(typed(self._bond_dict[(src, dst)], 'DirectedBond'))
     pure()
-    ensures(result == self._bond_dict[(src, dst)], tag="C01:get-dirbond")
+    ensures(typed(result, 'DirectedBond') and not fresh(result) and result == self._bond_dict[(src, dst)],
+            tag="C01:get-dirbond")
+    # what bonds_ok says about this particular bond, restated quantifier-free for the caller
+    ensures(implies(old(bonds_ok(self)), typed(result.order, 'int') and 1 <= result.order and result.order <= 3
+                    and typed(result.ring_bond, 'bool')
+                    and implies(result.ring_bond, ((dst, src) in self._bond_dict)
+                                and self._bond_dict[(dst, src)] != result
+                                and typed(self._bond_dict[(dst, src)], 'DirectedBond')
+                                and self._bond_dict[(dst, src)].order == result.order)), tag="C01:get-dirbond-facts")
 
 
 @contract("selfies/mol_graph.py::MolecularGraph.add_atom", props=["C01", "C02", "C08"])
@@ -81,6 +113,7 @@ def add_atom(self: 'MolecularGraph', atom: 'Atom', mark_root: bool = False):
              self._delocal_subgraph)
     ensures(result == atom, tag="C01:add-atom-result")
     ensures(wf(self), tag="C01:add-atom-wf")
+    ensures(wf_basic(self), tag="C01:wf-basic")
     ensures(len(self._atoms) == old(len(self._atoms)) + 1 and self._atoms[old(len(self._atoms))] == atom
             and atom.index == old(len(self._atoms)), tag="C01,C02:add-atom-appended")
     ensures(all(self._atoms[i] == old(self._atoms[i]) for i in range(old(len(self._atoms)))), tag="C01:add-atom-others")
@@ -121,6 +154,7 @@ def add_bond(self: 'MolecularGraph', src: int, dst: int, order: int, stereo: 'st
     requires(typed(self._bond_counts[src], 'int') and typed(self._bond_counts[dst], 'int'))
     modifies(self._bond_dict, self._adj_list[src], self._bond_counts)
     ensures(wf(self) and unchanged_structure(self), tag="C01:add-bond-wf")
+    ensures(wf_basic(self), tag="C01:wf-basic")
     ensures(fresh(result) and typed(result, 'DirectedBond') and result.src == src and result.dst == dst
             and result.order == order and result.stereo == stereo and result.ring_bond == False,
             tag="C01,C02:add-bond-result")
@@ -146,11 +180,14 @@ def add_ring_bond(self: 'MolecularGraph', a: int, b: int, order: int, a_stereo: 
     requires(0 <= a and a < len(self._atoms) and 0 <= b and b < len(self._atoms) and a != b)
     requires(1 <= order and order <= 3)
     requires(0 <= a_pos and a_pos <= len(self._adj_list[a]) and 0 <= b_pos and b_pos <= len(self._adj_list[b]))
-    requires(all(self._adj_list[a][j] is not None for j in range(len(self._adj_list[a]))))
-    requires(all(self._adj_list[b][j] is not None for j in range(len(self._adj_list[b]))))
+    requires(adj_ok(self) and bonds_ok(self))
+    requires(not ((a, b) in self._bond_dict) and not ((b, a) in self._bond_dict))
     requires(typed(self._bond_counts[a], 'int') and typed(self._bond_counts[b], 'int'))
     modifies(self._bond_dict, self._adj_list[a], self._adj_list[b], self._bond_counts, self._ring_bond_flags)
     ensures(wf(self) and unchanged_structure(self), tag="C01:ring-bond-wf")
+    ensures(wf_basic(self), tag="C01:wf-basic")
+    ensures(adj_ok(self), tag="C01:ring-bond-adjacency-no-placeholder")
+    ensures(bonds_ok(self), tag="C01:ring-bond-keeps-bond-table-consistent")
     ensures(((a, b) in self._bond_dict) and ((b, a) in self._bond_dict)
             and fresh(self._bond_dict[(a, b)]) and fresh(self._bond_dict[(b, a)])
             and self._bond_dict[(a, b)] != self._bond_dict[(b, a)]
@@ -194,8 +231,12 @@ def update_bond_order(self: 'MolecularGraph', a: int, b: int, new_order: int):
                      and self._bond_dict[(max(a, b), min(a, b))] != self._bond_dict[(min(a, b), max(a, b))]
                      and self._bond_dict[(max(a, b), min(a, b))].order == self._bond_dict[(min(a, b), max(a, b))].order))
     requires(typed(self._bond_counts[a], 'int') and typed(self._bond_counts[b], 'int'))
+    requires(adj_ok(self) and bonds_ok(self))
     modifies(self._bond_dict[(min(a, b), max(a, b))], self._bond_dict[(max(a, b), min(a, b))], self._bond_counts)
     ensures(wf(self) and unchanged_structure(self), tag="C01:update-wf")
+    ensures(wf_basic(self), tag="C01:wf-basic")
+    ensures(adj_ok(self), tag="C01:update-adjacency-untouched")
+    ensures(bonds_ok(self), tag="C01:update-keeps-bond-table-consistent")
     ensures(self._bond_dict[(min(a, b), max(a, b))].order == new_order, tag="C01,C02:update-order")
     ensures(implies(self._bond_dict[(min(a, b), max(a, b))].ring_bond,
                     self._bond_dict[(max(a, b), min(a, b))].order == new_order), tag="C01:update-order-reverse")
@@ -222,4 +263,49 @@ def bonding_capacity(self: 'Atom'):
     requires(table_ok(_current_constraints))
     requires(typed(self.element, 'str') and typed(self.charge, 'int') and typed(self.h_count, 'int|None'))
     pure()
-    ensures(result == capH(self), tag="C01,C06:capacity-minus-H")
+    ensures(typed(result, 'int') and result == capH(self), tag="C01,C06:capacity-minus-H")
+
+
+@spec
+def atoms_ok(mol):
+    return all(typed(mol._atoms[i].element, 'str') and typed(mol._atoms[i].charge, 'int')
+               and typed(mol._atoms[i].h_count, 'int|None') for i in range(len(mol._atoms)))
+
+
+@spec
+def val_ok(mol):
+    # VAL: every atom's running bond-order sum is an int within [0, capacity - explicit H] under the table in force
+    return all(typed(mol._bond_counts[i], 'int') and 0 <= mol._bond_counts[i]
+               and mol._bond_counts[i] <= capH(mol._atoms[i]) for i in range(len(mol._atoms)))
+
+
+@spec
+def bonds_ok(mol):
+    # every directed bond has an integer order 1..3; a ring bond has a distinct reverse twin of equal order
+    return all(implies(k in mol._bond_dict,
+                       typed(k, 'tuple[int,int]')
+                       and typed(mol._bond_dict[k], 'DirectedBond')
+                       and mol._bond_dict[k].src == k[0] and mol._bond_dict[k].dst == k[1]
+                       and typed(mol._bond_dict[k].order, 'int')
+                       and 1 <= mol._bond_dict[k].order and mol._bond_dict[k].order <= 3
+                       and typed(mol._bond_dict[k].ring_bond, 'bool')
+                       and implies(k[0] > k[1], mol._bond_dict[k].ring_bond) and k[0] != k[1]
+                       and implies(mol._bond_dict[k].ring_bond,
+                                   ((k[1], k[0]) in mol._bond_dict)
+                                   and mol._bond_dict[(k[1], k[0])] != mol._bond_dict[k]
+                                   and mol._bond_dict[(k[1], k[0])].order == mol._bond_dict[k].order
+                                   and mol._bond_dict[(k[1], k[0])].ring_bond))
+               for k in anyvalue())
+
+
+@spec
+def adj_ok(mol):
+    return all(all(mol._adj_list[i][j] is not None for j in range(len(mol._adj_list[i])))
+               for i in range(len(mol._atoms)))
+
+
+@contract("selfies/mol_graph.py::MolecularGraph.get_atoms", props=["C06", "C08"])
+def get_atoms(self: 'MolecularGraph'):
+    requires(typed(self._atoms, 'list'))
+    pure()
+    ensures(result == self._atoms, tag="C06:get-atoms")
